@@ -468,7 +468,16 @@ def gen_cases(ctx, nprog, nsched):
     progs = []
     for i in range(nprog):
         q = SIZES[i % 2] if rng.random() < 0.8 else rng.choice(SIZES)
-        if i % 5 == 4:
+        if i % 7 == 3:
+            # two producers that both flush behind a backlog: a FLUSH message is still queued when the other producer takes its ticket
+            d1, d2 = rng.choice(["u8", "u16", "f32"]), rng.choice(["u8", "u16", "f32"])
+            a = ["src 1", sigdef(1, 1, d1, rng)] + [data_op(rng, q, [(1, d1)], "small")[0] for _ in range(rng.randrange(2, 5))] + ["flush"] + \
+                [data_op(rng, q, [(1, d1)], "tiny")[0] for _ in range(rng.randrange(0, 3))] + ["close"]
+            b = ["src 2", sigdef(5, 2, d2, rng)] + [data_op(rng, q, [(5, d2)], "small")[0] for _ in range(rng.randrange(1, 4))] + ["flush"] + \
+                [data_op(rng, q, [(5, d2)], "tiny")[0] for _ in range(rng.randrange(1, 3))] + ["flush"]
+            p0, p1 = ";".join(a), ";".join(b)
+            labels.append("two_flushers")
+        elif i % 5 == 4:
             tail = [rng.choice(["flush", "fsr 1 5", "utc 1 3 99", "flush;fsr 1 7"])] if rng.random() < 0.6 else []
             p0, p1 = fill_queue_program(rng, q, tail), "-"
             labels.append("fill_to_brim")
